@@ -7,6 +7,7 @@ CONSTANTS
   MaxLen = 3
   WithBad = TRUE
   QueryEdges = FALSE
+  HostBits = "all"
   Canon = TRUE
 INIT Init
 NEXT Next
